@@ -159,6 +159,28 @@ Qed.
 Lemma finish_with_exc_step s r : exc_step s (finish_with s r).
 Proof. left. apply finish_with_res. Qed.
 
+Definition exc2 (e0 : option fexc) (s' : state) : Prop :=
+  fin_exc s' = e0 \/ (exists x, fin_exc s' = Some x /\ forall e, x <> XNoHost e).
+
+Lemma exc2_step s s' : exc2 (fin_exc s) s' -> exc_step s s'.
+Proof. intros [E|E]; [left; exact E|right; left; exact E]. Qed.
+
+Lemma submit_exc2 s t : exc2 (fin_exc s) (submit s t).
+Proof.
+  unfold submit. destruct (session_shut s); [|left; reflexivity].
+  destruct (fail_with_exc s XShutdown) as [E _]. destruct (completed s); [left; exact E|].
+  right. exists XShutdown. split; [exact E|intros e0; discriminate].
+Qed.
+
+Lemma bump_exc2 s dcl t : exc2 (fin_exc s) (bump_retry s dcl t).
+Proof.
+  unfold bump_retry. destruct (is_some (fin_exc s)); [left; reflexivity|].
+  exact (submit_exc2 (bump_counters s dcl) t).
+Qed.
+
+Lemma submit_exc_step s t : exc_step s (submit s t).
+Proof. apply exc2_step, submit_exc2. Qed.
+
 Ltac other_exc := first [apply fail_with_exc_step; intros e0; discriminate | apply finish_with_exc_step
                          | left; exact (proj2 (finish_rows_res _ _))].
 
@@ -167,16 +189,18 @@ Proof.
   intros H. destruct r; cbn [set_result] in H; try (inversion H; subst; other_exc).
   - destruct (pol c (nconsult s) k tag (retries s) (if request_error_kind k then msg_cl s else None)) as [d dcl].
     unfold handle_decision in H. inversion H; subst; clear H.
-    destruct d; try (left; reflexivity).
+    destruct d.
+    + apply exc2_step. exact (bump_exc2 (tick_consult s) dcl (TRetry true h)).
     + destruct (fail_with_exc (tick_consult s) (XResp k tag)) as [E _].
       change (completed (tick_consult s)) with (completed s) in E.
       destruct (completed s); [left; exact E|]. right; left. exists (XResp k tag). split; [exact E|intros e0; discriminate].
     + left. exact (proj2 (finish_with_res (tick_consult s) FNone)).
+    + apply exc2_step. exact (bump_exc2 (tick_consult s) dcl (TRetry false h)).
   - unfold unprepared in H.
     assert (G : forall ps, unprep_go c s h ps = (s', ev) -> exc_step s s').
     { intros [[pid qs] ks0] G. unfold unprep_go in G.
       destruct (negb (uses_ks c) && is_some ks0 && negb (opt_eqb (conn_ks s) ks0)); inversion G; subst;
-        [other_exc|left; reflexivity]. }
+        [other_exc|apply submit_exc_step]. }
     destruct (fut_ps c) as [[[pid pqs] pks]|].
     + destruct (negb (pid =? id)); [inversion H; subst; other_exc|].
       destruct (lookup (known c) id); eapply G; eauto.
@@ -202,7 +226,7 @@ Proof.
   - eapply walk_exc; eauto.
   - destruct (nth_error (attempts s) i) as [a|]; [|inversion H; subst; left; reflexivity].
     destruct (a_done a); [inversion H; subst; left; reflexivity|].
-    destruct (a_prep a); [inversion H; subst; left; reflexivity|].
+    destruct (a_prep a); [inversion H; subst; exact (submit_exc_step (set_attempts s (mark_done i (attempts s))) _)|].
     destruct (Nat.eqb (a_page a) (page_no s)); [|inversion H; subst; left; reflexivity].
     apply set_result_exc in H. eapply exc_step_pre; [|exact H]. reflexivity.
   - destruct (nth_error (queue s) k) as [t|]; [|inversion H; subst; left; reflexivity].
